@@ -19,9 +19,10 @@ EXPLANATION = (
     "every mutation of the non-dispatch bytes. Truncated headers, every 16-bit magic (concretely), the PyPy '0' magic and the "
     "dropbox magic are separate obligations. Memory/time exhaustion by adversarial length fields is monitored by concrete "
     "resource probes (tracemalloc peak, wall time) on boundary length values - monitored, not proved.")
-BOUNDS = {"quick": "magics 62211 (2.7), 3413 (3.8), 3495 (3.11); top-level type code: each of the 31 dispatchable codes with and "
+BOUNDS = {"quick": "single-byte mutations: 8 seed-chosen positions of a compiler-written 2.7, 3.8 and 3.11 file, all 256 values each; every prefix "
+                   "of those files (concrete); magics 62211 (2.7), 3413 (3.8), 3495 (3.11); top-level type code: each of the 31 dispatchable codes with and "
                    "without FLAG_REF; k in {0,1,3,6} payload bytes after it; headers truncated at every length",
-          "thorough": "+ magics 20121, 62061, 3230, 3379, 3531, 3571; k up to 10; container/code type codes with each "
+          "thorough": "every position of compiler-written 2.7/3.6/3.8/3.10/3.11/3.13 files; + magics 20121, 62061, 3230, 3379, 3531, 3571; k up to 10; container/code type codes with each "
                       "dispatchable first-child type code"}
 OUTSIDE = ["files longer than the bound (more children of the same loops)",
            "the host-magic fast path (C marshal.loads, documented by CPython as unsafe on hostile data)",
@@ -298,6 +299,97 @@ def kcap(t, tier):
     return KCAP.get(chr(t), 8) + (0 if tier == "quick" else 0)
 
 
+_BASE_SCRIPT = r'''
+import sys, os, json, tempfile, py_compile, shutil
+d = tempfile.mkdtemp()
+src = os.path.join(d, "m.py")
+open(src, "w").write("x = 1\ndef f(a, b=2):\n    return [a + b, 'k', 2.5, (None, x)]\n")
+os.utime(src, (1000000000, 1000000000))
+out = os.path.join(d, "m.pyc")
+py_compile.compile(src, cfile=out, doraise=True)
+data = open(out, "rb").read()
+shutil.rmtree(d)
+sys.stdout.write(json.dumps(list(bytearray(data))))
+'''
+
+_BASES = {}
+
+
+def base_file(ver):
+    """a small valid .pyc written by the real interpreter `ver` (deterministic: fixed source and mtime)"""
+    from engine import oracles
+    if ver not in _BASES:
+        _BASES[ver] = bytes(oracles.run_in(ver, _BASE_SCRIPT))
+    return _BASES[ver]
+
+
+def mutation_ob(ver, pos, tier):
+    """every value of the byte at `pos` of a valid file (single-byte mutation), the rest as the real compiler wrote it"""
+    base = base_file(ver)
+
+    def body(v):
+        items = list(base)
+        items[pos] = v
+        run_load(mkbytes(items))
+
+    def replay(v):
+        import xdis.load as LD
+        data = bytearray(base)
+        data[pos] = v
+        try:
+            LD.load_module_from_file_object(io.BytesIO(bytes(data)), filename="hostile.pyc", code_objects={}, get_code=True)
+            return None
+        except ImportError:
+            return None
+        except BaseException as e:
+            return "valid %d.%d file with byte %d changed from 0x%02x to 0x%02x: load raises %s: %s" % (
+                ver[0], ver[1], pos, base[pos], v, type(e).__name__, str(e)[:120])
+
+    return Ob(id="C11.mut.py%d%d.pos%03d" % (ver[0], ver[1], pos), prop="C11", params=[("v", (0, 255))], body=body, replay=replay,
+              funcs=FUNCS, region="mutation", skeleton="valid %d.%d file (%d bytes), byte %d symbolic" % (ver[0], ver[1], len(base), pos),
+              bound="all 256 values of one byte", timeout=240 if tier == "quick" else 400, setup=install_monitors,
+              oracle="returns 7-tuple or raises ImportError")
+
+
+def prefix_ob(ver):
+    """every prefix of a valid file (concrete sweep; auxiliary)"""
+    def q():
+        import xdis.load as LD
+        base = base_file(ver)
+        bad = None
+        devnull = open(os.devnull, "w")
+        saved = sys.stdout, sys.stderr
+        sys.stdout = sys.stderr = devnull
+        try:
+            for n in range(len(base)):
+                try:
+                    LD.load_module_from_file_object(io.BytesIO(base[:n]), filename="hostile.pyc", code_objects={})
+                except ImportError:
+                    pass
+                except BaseException as e:
+                    if bad is None:
+                        bad = n
+        finally:
+            sys.stdout, sys.stderr = saved
+            devnull.close()
+        return ("refuted" if bad is not None else "confirmed"), "%d prefixes" % len(base), ({"n": bad} if bad is not None else None), 0, 0.0
+
+    def replay(n):
+        import xdis.load as LD
+        base = base_file(ver)
+        try:
+            LD.load_module_from_file_object(io.BytesIO(base[:n]), filename="hostile.pyc", code_objects={})
+            return None
+        except ImportError:
+            return None
+        except BaseException as e:
+            return "valid %d.%d file truncated to %d bytes: load raises %s: %s" % (ver[0], ver[1], n, type(e).__name__, str(e)[:120])
+
+    return Ob(id="C11.prefix.py%d%d" % ver, prop="C11", params=[], body=None, direct=q, replay=replay, funcs=FUNCS, region="prefix",
+              skeleton="every prefix of a valid %d.%d file" % ver, bound="all prefixes", timeout=120,
+              oracle="returns 7-tuple or raises ImportError (concrete; auxiliary)")
+
+
 def generate(tier, seed):
     obs = []
     magics = [62211, 3413, 3495] if tier == "quick" else [20121, 62061, 62211, 3230, 3379, 3413, 3495, 3531 - 0, 3571]
@@ -326,6 +418,17 @@ def generate(tier, seed):
                     # may be symbolic, or the next type code would be (256 paths per byte)
                     kk = min(kk, {"N": 0, "T": 0, "F": 0, ".": 0, "S": 0, "0": 0, "z": 1, "Z": 1, ")": 1, "f": 1, "{": 0}.get(chr(c), 4))
                 obs.append(payload_ob(m, t, False, kk, tier, child=prefix + [c]))
+    import random
+    rnd = random.Random(seed)
+    for ver in ((2, 7), (3, 8), (3, 11)) if tier == "quick" else ((2, 7), (3, 6), (3, 8), (3, 10), (3, 11), (3, 13)):
+        base = base_file(ver)
+        obs.append(prefix_ob(ver))
+        if tier == "quick":
+            positions = sorted(rnd.sample(range(4, len(base)), 8))
+        else:
+            positions = list(range(4, len(base)))
+        for pos in positions:
+            obs.append(mutation_ob(ver, pos, tier))
     for kind in ("all16", "short", "zero"):
         obs.append(magic_ob(kind))
     for t in "([<>{sutaAzZlf":
